@@ -376,7 +376,7 @@ Definition step_client (w : world) (t : N) (r : role) (prog : list call) (pc : c
       match r with
       | Worker _ =>
           if visible then Some (set_thread (emit w (ECb (XThread t) (CbEffectRun k))) t (TClient r prog PIdle))
-          else invoke w t r prog true
+          else invoke w t r prog false   (* the invocation is recorded; no user code observes it *)
       | Client => Some (set_thread w t (TClient r prog PIdle))   (* unreachable: only pool tasks start here *)
       end
   | PDispatchTx e a =>
